@@ -383,6 +383,12 @@ public:
     }
     if (const BinaryOperator *B = dyn_cast<BinaryOperator>(E)) {
       if (B->getOpcode() == BO_Assign) return json::Array{"=", JE(B->getLHS()), JE(B->getRHS())};
+      if (B->getOpcode() == BO_Sub) {
+        // signedness of the subtraction after the usual arithmetic conversions
+        QualType RT = B->getType();
+        const char *sg = RT->isPointerType() ? "p" : (RT->isUnsignedIntegerOrEnumerationType() ? "u" : "s");
+        return json::Array{"b", "-", JE(B->getLHS()), JE(B->getRHS()), sg};
+      }
       return json::Array{"b", BinaryOperator::getOpcodeStr(B->getOpcode()).str(), JE(B->getLHS()),
                          JE(B->getRHS())};
     }
